@@ -39,13 +39,6 @@ Definition mm_nonmutators : list string :=
   ["Swap"; "GetMemManager"; "ResetKey"; "GetBegin"; "GetEnd"; "Find"; "GetKeyBounds"; "MakeIterator";
    "MakeMutableIterator"; "MakeMutableKeyIterator"].
 
-(* DataTable: changeVersion (selections by index / hash pointers) and removeVersion (row references) *)
-Definition dt_remove_mutators : list string :=
-  ["Clear"; "Remove"; "ExtractRow"; "Assign"].
-Definition dt_change_mutators : list string :=
-  ["Clear"; "Remove"; "ExtractRow"; "Assign"; "Add"; "AddRow"; "TryAdd"; "TryAddRow"; "Insert"; "InsertRow"; "TryInsert"; "TryInsertRow";
-   "Update"; "UpdateRow"; "TryUpdate"; "TryUpdateRow"].
-
 Definition required (cls name : string) : option (list string) :=
   let own_tag :=
     if String.eqb cls "HashSet" || String.eqb cls "TreeSet" then Some "version"
@@ -61,10 +54,6 @@ Definition required (cls name : string) : option (list string) :=
       | [] => if mem_s name mm_nonmutators then Some [] else None
       | l => Some l
       end
-    else if String.eqb cls "DataTable" then
-      let r := if mem_s name dt_remove_mutators then ["removeVersion"] else [] in
-      let c := if mem_s name dt_change_mutators then ["changeVersion"] else [] in
-      Some ((r ++ c)%list)          (* DataTable: every other public member must not bump at all *)
     else None
   end.
 
